@@ -22,12 +22,12 @@ Section C04.
   Variable dec_env : bytes -> option envelope.
   Variable enc_meta : meta -> bytes.
   Variable dec_meta : bytes -> option meta.
-  Variable chunk : nat.
+  Variable chunk : wcfg.
   Hypothesis dec_enc_env : forall e, dec_env (enc_env e) = Some e.
   Hypothesis dec_enc_meta : forall m, dec_meta (enc_meta m) = Some m.
   Hypothesis enc_env_nonempty : forall e, enc_env e <> [].
   Hypothesis enc_meta_nonempty : forall m, enc_meta m <> [].
-  Hypothesis chunk_pos : chunk <> O.
+  Hypothesis chunk_pos : wcfg_ok chunk.
 
   Notation dprog_of := (disk_prog enc_env dec_env enc_meta dec_meta chunk).
   Notation crashed sch s0 specs := (sched dexec (th_next dprog_of) sch s0 (map (fun sp : dspec => th_start (snd sp)) specs)).
@@ -124,6 +124,27 @@ Section C04.
   Qed.
 End C04.
 
+(* Short writes and write errors.  The theorems above hold for every behaviour
+   of the asynchronous writes that never reports an error (wcfg_ok: an
+   aio_write may store fewer bytes than asked, any number of times - the loop
+   continues at offset + ret).  And whatever the writes do, errors included:
+   AioFile.dump stopped after any number of commands has left everything but
+   its temp file and its target alone, the target holds what it held before or
+   the complete data, and if dump ends with the IOError the target is untouched
+   - a truncated file is never published. *)
+Theorem C04_dump_complete_despite_short_writes : forall (cfg : wcfg) data p t r s n,
+  w_chunk cfg <> O -> data <> [] -> p <> PTmp t -> fget s (PTmp t) = None ->
+  let st := asteps dexec prog_next n s (dump cfg data p t (Ret r)) in
+  (forall q, q <> PTmp t -> q <> p -> fget (fst st) q = fget s q) /\
+  (fget (fst st) p = fget s p \/ (fget (fst st) p = Some data /\ fget (fst st) (PTmp t) = None)) /\
+  match snd st with
+  | Ret x => (x = r /\ fget (fst st) p = Some data /\ fget (fst st) (PTmp t) = None) \/
+             (x = REmptyWrite /\ fget (fst st) p = fget s p)
+  | Do _ _ => True
+  end.
+Proof. intros. apply dump_complete_despite_short_writes; assumption. Qed.
+Print Assumptions C04_dump_complete_despite_short_writes.
+
 Print Assumptions C04_crash_safe.
 Print Assumptions C04_acked_not_lost.
 Print Assumptions C04_load_never_blocked.
@@ -136,11 +157,12 @@ Theorem C04_numcodec_instance : forall sch,
   let specs : list dspec :=
     [(1, [1; 2; 3], [OWrite (mkEnv [97] [[98]; [99]] [100; 101]) 5 [1] [1; 2]; OIncr 1 [3]; ODeliv 1 [0] [1]]);
      (2, [4; 5], [OWrite (mkEnv [] [[98]] [102]) 6 [2] [4; 5]; OSetTs 2 9 [4]; ORemove 2])] in
-  let out := sched dexec (th_next (disk_prog nc_enc_env nc_dec_env nc_enc_meta nc_dec_meta 4)) sch []
+  let cfg := mkW 4 (fun t off n => Some (Nat.div2 (S n))) in      (* every write of >= 2 bytes is short *)
+  let out := sched dexec (th_next (disk_prog nc_enc_env nc_dec_env nc_enc_meta nc_dec_meta cfg)) sch []
                    (map (fun sp : dspec => th_start (snd sp)) specs) in
-  exists l, recover_load nc_enc_env nc_dec_env nc_enc_meta nc_dec_meta 4 (fst out) = RLoad l.
+  exists l, recover_load nc_enc_env nc_dec_env nc_enc_meta nc_dec_meta cfg (fst out) = RLoad l.
 Proof.
-  intros sch specs out.
+  intros sch specs cfg out.
   assert (Hnd : NoDup (map (fun sp : dspec => fst (fst sp)) specs)).
   { cbn. repeat constructor; cbn; intuition discriminate. }
   assert (Htd : forall i j (spi spj : dspec) t, i <> j -> nth_error specs i = Some spi -> nth_error specs j = Some spj ->
@@ -155,8 +177,9 @@ Proof.
       repeat (apply Forall_cons;
               [split; [cbn; reflexivity|split; [intros t Ht; cbn in Ht |- *; tauto|cbn; first [lia|exact I]]]|]);
       apply Forall_nil. }
-  destruct (C04_load_never_blocked nc_enc_env nc_dec_env nc_enc_meta nc_dec_meta 4 nc_dec_enc_env nc_dec_enc_meta
-              nc_enc_env_nonempty nc_enc_meta_nonempty ltac:(discriminate) [] specs sch Hnd Htd Hok) as (l & El & _).
+  assert (Hcfg : wcfg_ok cfg) by (split; [discriminate|intros t off n; discriminate]).
+  destruct (C04_load_never_blocked nc_enc_env nc_dec_env nc_enc_meta nc_dec_meta cfg nc_dec_enc_env nc_dec_enc_meta
+              nc_enc_env_nonempty nc_enc_meta_nonempty Hcfg [] specs sch Hnd Htd Hok) as (l & El & _).
   { intros id b E. discriminate. }
   exists l. exact El.
 Qed.
